@@ -913,6 +913,18 @@ def install_printf(E):
         return len(data) & mask(32)
     X["sprintf"] = sprintf
 
+    def vsnprintf(E, st, fr, ins, a):
+        # the va_list stays opaque: message text produced through v*printf is rendered as its format string
+        n = a[1]
+        if is_sym(n):
+            raise S.SymOffset(bv(n, 64))
+        data = E.cstring(st, a[2])
+        if n > 0:
+            E.write_bytes(st, a[0], data[:n - 1] + b"\0")
+        E.res.assumptions.add("text produced through vsnprintf (sformatf, messages) is rendered as its format string")
+        return len(data) & mask(32)
+    X["vsnprintf"] = vsnprintf
+
 
 def install_scanf(E):
     X = E.externs
